@@ -1668,6 +1668,152 @@ def gen_integrals():
             out.append(emit_method(pe, name + meth.capitalize(), 'self_', ty, params, body, None, '`%s::%s`' % (hdr[-1], meth)))
     return '\n'.join(out)
 
+
+# --------------------------------------------------------------------------
+# Fragment 12: the bookkeeping rules (C03, C07, C12, C13): which faces a cell stores, the symmetric skip,
+# the links of `finalize`, `neighbour_ids`
+# --------------------------------------------------------------------------
+
+def gen_rules():
+    out = []
+    RE = extract2.RuleEmitter
+    # ---- should_construct_face
+    vt = tokenize(strip_attrs_cfg(read('src/voronoi/voronoi_cell.rs')))
+    _, body, _ = find_fn_in_impls(vt, 'VoronoiCell', 'from_convex_cell')
+    blk = parse_body(body)
+    let = extract2.find_node(blk, lambda n: n[0] == 'let' and n[2] == ('pvar', 'should_construct_face'))
+    if let is None:
+        raise Unparsed("should_construct_face not found")
+
+    class SC(RE):
+        def expr(self, e, env):
+            # `convex_cell.dimensionality.vector_is_valid(half_space.normal())` -> the parameter `valid`
+            if e[0] == 'mcall' and e[2] == 'vector_is_valid' and len(e[3]) == 1 and e[3][0] == ('mcall', ('path', ['half_space']), 'normal', []):
+                return 'valid', 'B'
+            return RE.expr(self, e, env)
+    env = {'half_space': ('hs', 'HS'), 'idx': ('idx', 'N'), 'mask': ('mask', 'OMASK')}
+    t, ty = SC().expr(let[4], env)
+    if ty != 'B':
+        raise Unparsed("should_construct_face type")
+    used = extract2.find_node(blk, lambda n: n[0] == 'if' and n[1] == ('path', ['should_construct_face']))
+    out.append("/-- `should_construct_face` of `VoronoiCell::from_convex_cell` (`valid` = the plane normal is valid for the dimensionality) -/\n"
+               "def shouldConstructFace (valid : Bool) (hs_right : Option Nat) (hs_shift : Option Unit) (idx : Nat) (mask : Option (Nat → Bool)) : Bool :=\n  %s\n" % t)
+    out.append("/-- a face is initialised exactly when `should_construct_face` holds -/\ndef faceInitGuarded : Bool := %s\n" % ('true' if used is not None else 'false'))
+    # ---- the two face-integral loops of ConvexCell
+    ct = tokenize(strip_attrs_cfg(read('src/voronoi/convex_cell.rs')))
+
+    def dim_check(blk):
+        n = extract2.find_node(blk, lambda n: n[0] == 'if' and n[1] == ('un', '!', ('mcall', ('path', ['self']), 'clipping_plane_has_valid_dimensionality', [('field', ('path', ['tet']), 'plane_idx')])))
+        return n is not None and n[2][1] and n[2][1][0] == ('expr', ('continue',))
+    _, body, _ = find_fn_in_impls(ct, 'ConvexCell', 'compute_face_integrals')
+    b1 = parse_body(body)
+    _, body, _ = find_fn_in_impls(ct, 'ConvexCell', 'compute_face_integrals_sym')
+    b2 = parse_body(body)
+    out.append("/-- both face-integral loops skip tetrahedra of planes of invalid dimensionality -/\ndef nonSymChecksDim : Bool := %s\ndef symChecksDim : Bool := %s\n" %
+               ('true' if dim_check(b1) else 'false', 'true' if dim_check(b2) else 'false'))
+    m = extract2.find_node(b2, lambda n: n[0] == 'match' and n[1] == ('index', ('field', ('path', ['self']), 'clipping_planes'), ('field', ('path', ['tet']), 'plane_idx')))
+    if m is None:
+        raise Unparsed("skip rule of compute_face_integrals_sym")
+    guard = extract2.find_node(b2, lambda n: n[0] == 'if' and n[1] == ('mcall', ('path', ['integral']), 'is_none', []))
+
+    class SY(RE):
+        def expr(self, e, env):
+            if e == ('index', ('field', ('path', ['self']), 'clipping_planes'), ('field', ('path', ['tet']), 'plane_idx')):
+                return 'hs', 'HS'
+            return RE.expr(self, e, env)
+    t, ty = SY().expr(m, {'self': ('self_', 'SELF'), 'mask': ('mask', 'MASK')})
+    if ty != 'B':
+        raise Unparsed("skip rule type")
+    out.append("/-- the skip rule of `compute_face_integrals_sym` (`true` = this tetrahedron's face is skipped) -/\n"
+               "def symSkip (hs_right : Option Nat) (hs_shift : Option Unit) (idx : Nat) (mask : Nat → Bool) : Bool :=\n  %s\n" % t)
+    out.append("/-- the skip rule is consulted only while the face has no integral yet -/\ndef symSkipOnlyWhenUninitialised : Bool := %s\n" % ('true' if guard is not None else 'false'))
+    # ---- finalize: links of a stored face, offsets
+    vt2 = tokenize(strip_attrs_cfg(read('src/voronoi.rs')))
+    _, body, _ = find_fn_in_impls(vt2, 'Voronoi', 'finalize')
+    blk = parse_body(body)
+    loop = extract2.find_node(blk, lambda n: n[0] == 'for' and n[1] == ('ptuple', [('pvar', 'i'), ('pvar', 'face')]))
+    if loop is None or loop[2] != ('mcall', ('mcall', ('field', ('path', ['self']), 'faces'), 'iter', []), 'enumerate', []):
+        raise Unparsed("face loop of finalize")
+    env = {'face': ('face', 'FACE')}
+    parts = []
+    for st in loop[3][1] + ([('expr', loop[3][2])] if loop[3][2] is not None else []):
+        def push_target(s):
+            if s[0] == 'expr' and s[1][0] == 'mcall' and s[1][2] == 'push' and s[1][3] == [('path', ['i'])] and s[1][1][0] == 'index' and s[1][1][1] == ('path', ['cell_face_connections']):
+                return s[1][1][2]
+            return None
+        tg = push_target(st)
+        if tg is not None:
+            t, ty = RE().expr(tg, env)
+            if ty != 'N':
+                raise Unparsed("push target type")
+            parts.append("[%s]" % t)
+        elif st[0] == 'expr' and st[1][0] == 'iflet' and st[1][1][0] == 'ptuple' and st[1][2][0] == 'tuple' and st[1][4] is None:
+            pats, scr = st[1][1][1], st[1][2][1]
+            if len(pats) != 2 or len(scr) != 2:
+                raise Unparsed("if-let tuple of finalize")
+            re_ = RE()
+            s1, t1 = re_.expr(scr[0], env)
+            s2, t2 = re_.expr(scr[1], env)
+            if (t1, t2) != ('ON', 'OS'):
+                raise Unparsed("if-let scrutinee types")
+            p1, v1 = re_.pat(pats[0], 'ON')
+            p2, v2 = re_.pat(pats[1], 'OS')
+            env2 = dict(env)
+            for v, vt_ in list(v1.items()) + list(v2.items()):
+                env2[v] = (v, vt_)
+            inner = []
+            for s2_ in st[1][3][1]:
+                tg = push_target(s2_)
+                if tg is None:
+                    raise Unparsed("statement in the right-link branch")
+                t, ty = re_.expr(tg, env2)
+                inner.append("[%s]" % t)
+            parts.append("(match %s, %s with | %s, %s => %s | _, _ => [])" % (s1, s2, p1, p2, ' ++ '.join(inner) if inner else '[]'))
+        else:
+            raise Unparsed("statement in the face loop of finalize")
+    out.append("/-- cells a stored face is linked to by `finalize`, in order -/\ndef links (left : Nat) (right : Option Nat) (shift : Option Unit) : List Nat :=\n  %s\n" % ' ++ '.join(parts))
+    loop2 = extract2.find_node(blk, lambda n: n[0] == 'for' and n[1] == ('ptuple', [('pvar', 'i'), ('pvar', 'cell')]))
+    ok = False
+    if loop2 is not None:
+        ss = loop2[3][1]
+        ok = (len(ss) == 3 and ss[0][0] == 'let' and ss[0][2] == ('pvar', 'face_count')
+              and ss[0][4] == ('mcall', ('index', ('path', ['cell_face_connections']), ('path', ['i'])), 'len', [])
+              and ss[1] == ('expr', ('mcall', ('path', ['cell']), 'finalize', [('path', ['face_connections_offset']), ('path', ['face_count'])]))
+              and ss[2] == ('assign', '+=', ('path', ['face_connections_offset']), ('path', ['face_count'])))
+    out.append("/-- offsets: each cell gets the running offset and its own count, then the offset advances by that count -/\ndef offsetsArePrefixSums : Bool := %s\n" % ('true' if ok else 'false'))
+    # ---- VoronoiFace::is_periodic / is_boundary, VoronoiCell::neighbour_ids
+    ft = tokenize(strip_attrs_cfg(read('src/voronoi/voronoi_face.rs')))
+    for fn, lean, arg in (('is_periodic', 'facePeriodic', 'shift : Option Unit'), ('is_boundary', 'faceBoundary', 'right : Option Nat')):
+        _, body, _ = find_fn_in_impls(ft, 'VoronoiFace', fn)
+        b = parse_body(body)
+        if b[1] or b[2] is None:
+            raise Unparsed(fn)
+        t, ty = RE().expr(b[2], {'self': ('self_', 'SELFFACE')})
+        if ty != 'B':
+            raise Unparsed(fn + " type")
+        out.append("/-- `VoronoiFace::%s` -/\ndef %s (%s) : Bool :=\n  %s\n" % (fn, lean, arg, t))
+    _, body, _ = find_fn_in_impls(vt, 'VoronoiCell', 'neighbour_ids')
+    blk = parse_body(body)
+    cl = extract2.find_node(blk, lambda n: n[0] == 'closure')
+    if cl is None or cl[2][0] != 'block':
+        raise Unparsed("closure of neighbour_ids")
+    ss = cl[2][1]
+    if not (len(ss) == 2 and ss[0][0] == 'let' and ss[0][2] == ('pvar', 'face') and ss[1][0] == 'expr' and ss[1][1][0] == 'if' and ss[1][1][3] is None):
+        raise Unparsed("closure body of neighbour_ids")
+    ret = ss[1][1][2][1]
+    if ret != [('expr', ('return', ('path', ['None'])))]:
+        raise Unparsed("early return of neighbour_ids")
+    env = {'face': ('face', 'FACE'), 'self': ('self_', 'SELF')}
+    c, tc = RE().expr(ss[1][1][1], env)
+    v, tv = RE().expr(cl[2][2], env)
+    if tc != 'B' or tv != 'ON':
+        raise Unparsed("neighbour_ids types")
+    chain = method_chain(blk[2]) if blk[2] is not None else []
+    out.append("/-- the closure of `VoronoiCell::neighbour_ids` applied to one listed face -/\n"
+               "def neighbourOf (left : Nat) (right : Option Nat) (shift : Option Unit) (idx : Nat) : Option Nat :=\n  if %s then none else %s\n" % (c, v))
+    out.append("/-- `neighbour_ids` maps that closure over the cell's face indices -/\ndef neighbourIdsChain : List String := [%s]\n" % ', '.join('"%s"' % x for x in chain))
+    return '\n'.join(out)
+
 # --------------------------------------------------------------------------
 FRAGMENTS = [
     # (module name, source files, generator, imports)
@@ -1684,6 +1830,7 @@ FRAGMENTS = [
     ('BuildStep', ['src/voronoi/convex_cell.rs'], gen_buildstep, ['MVoro.Model.Build']),
     ('ClipVertex', ['src/voronoi/convex_cell.rs'], gen_clipvertex, ['MVoro.Model.Build']),
     ('RightLoc', ['src/voronoi/half_space.rs'], gen_rightloc, ['MVoro.Model.Build', 'MVoro.Gen.Geom']),
+    ('Rules', ['src/voronoi/voronoi_cell.rs', 'src/voronoi/convex_cell.rs', 'src/voronoi.rs', 'src/voronoi/voronoi_face.rs'], gen_rules, []),
     ('NN', ['src/rtree_nn.rs'], gen_nn, ['MVoro.Model.Build']),
     ('Integrals', ['src/voronoi/integrals.rs', 'src/voronoi/voronoi_face.rs'], gen_integrals, ['MVoro.Model.Build', 'MVoro.Gen.Geom']),
 ]
